@@ -726,6 +726,9 @@ static int _yr_re_emit(
   YR_ARENA_REF jmp_offset_ref;
   YR_ARENA_REF repeat_start_args_ref;
 
+  yr_arena_off_t start_offset = yr_arena_get_current_offset(
+      emit_context->arena, YR_RE_CODE_SECTION);
+
   switch (re_node->type)
   {
   case RE_NODE_LITERAL:
@@ -864,6 +867,11 @@ static int _yr_re_emit(
 
     bookmark_1 = yr_arena_get_current_offset(
         emit_context->arena, YR_RE_CODE_SECTION);
+
+    // If e emitted no code (like a{0}) then e+ is as empty as e, there is
+    // nothing to jump back to.
+    if (bookmark_1 == start_offset)
+      break;
 
     if (instruction_ref.offset - bookmark_1 < INT16_MIN)
       return ERROR_REGULAR_EXPRESSION_TOO_LARGE;
@@ -1195,7 +1203,19 @@ static int _yr_re_emit(
   }
 
   if (code_ref != NULL)
+  {
     *code_ref = instruction_ref;
+
+    // A node like a{0} emits no code at all. Its code still has a position:
+    // the place where it would have started. Callers compute jump offsets
+    // from this reference (e.g. the split that closes (a{0})+ ), a null
+    // reference made them jump outside the code buffer.
+    if (YR_ARENA_IS_NULL_REF(instruction_ref))
+    {
+      code_ref->buffer_id = YR_RE_CODE_SECTION;
+      code_ref->offset = start_offset;
+    }
+  }
 
   return ERROR_SUCCESS;
 }
